@@ -17,7 +17,7 @@ OutLen(alg) ==
     [] alg \in {"sha512", "sha3_512", "keccak512"} -> 64
 LegacyDigests == {"sha1", "ripemd160", "sha224", "sha256", "sha384", "sha512", "sha512_224", "sha512_256", "sha3_224", "sha3_256",
                   "sha3_384", "sha3_512", "keccak224", "keccak256", "keccak384", "keccak512", "blake2b", "blake2s"}
-B2Max(v) == IF v \in {"b_dyn", "b_const", "b_legacy", "b_mac", "b"} THEN 64 ELSE 32     \* maximal output and key length
+B2Max(v) == IF v \in {"b_dyn", "b_const", "b_legacy", "b_mac", "b", "bc"} THEN 64 ELSE 32     \* maximal output and key length
 Rounds == {8, 12, 20}
 Pow2(n) == 2 ^ n
 
@@ -42,6 +42,7 @@ Legal(s) ==
     [] s.entry = "scrypt_out" -> s.a >= 1                                                             \* a = dkLen
     [] s.entry = "argon2_params" -> s.a >= 1 /\ s.a < Pow2(24) /\ s.b >= 1 /\ s.c \in {16, 19}        \* a = p, b = t, c = version
     [] s.entry = "ct_slice" -> s.a = s.b                                                              \* lengths of the two slices
+    [] s.entry = "mac_cmp" -> TRUE                                                                    \* MacResult == / != : any two lengths, never a refusal
     [] s.entry = "x25519_try_from" -> s.a = 32
 
 Sh(e, v, a, b, c, d) == [entry |-> e, v |-> v, a |-> a, b |-> b, c |-> c, d |-> d]
@@ -60,8 +61,8 @@ Shapes ==
                 v \in {"b_dyn", "s_dyn", "b_const", "s_const", "b_legacy", "s_legacy", "b_mac", "s_mac"}}
   \cup {Sh("blake2_bits", "b_const", a, 0, 0, 0) : a \in {0, 1, 7, 9, 250, 505, 511, 512, 513, 520}}
   \cup {Sh("blake2_bits", "s_const", a, 0, 0, 0) : a \in {0, 1, 7, 9, 250, 255, 256, 257, 264}}
-  \cup UNION {{Sh("blake2_out", v, a, b, c, d) : b \in Around(a), c \in {0, B2Max(v), B2Max(v) + 1}, d \in {1, 2, 3}} : v \in {"b", "s"}, a \in {1, 20, 32}}
-  \cup UNION {{Sh("blake2_rekey", v, 0, 0, c, 0) : c \in {0, 1, B2Max(v), B2Max(v) + 1}} : v \in {"b", "s"}}
+  \cup UNION {{Sh("blake2_out", v, a, b, c, d) : b \in Around(a), c \in {0, B2Max(v), B2Max(v) + 1}, d \in {1, 2, 3}} : v \in {"b", "s", "bc", "sc"}, a \in {1, 20, 32}}         \* "bc" / "sc": the const-generic contexts
+  \cup UNION {{Sh("blake2_rekey", v, 0, 0, c, 0) : c \in {0, 1, B2Max(v), B2Max(v) + 1}} : v \in {"b", "s", "bc", "sc"}}
   \cup UNION {{Sh("digest_result", v, 0, b, 0, 0) : b \in Around(OutLen(v)) \cup {0}} : v \in LegacyDigests}
   \cup {Sh("digest_phase", v, a, 0, 0, 0) : v \in LegacyDigests, a \in {0, 1}}
   \cup UNION {{Sh("hmac_result", v, 0, b, 0, 0) : b \in Around(OutLen(v)) \cup {0}} : v \in {"sha1", "sha256", "sha512", "sha3_256", "blake2b"}}
@@ -75,6 +76,7 @@ Shapes ==
   \cup {Sh("scrypt_out", "scrypt", a, 0, 0, 0) : a \in {0, 1}}
   \cup {Sh("argon2_params", "argon2", a, b, c, 0) : a \in {0, 1, Pow2(24) - 1, Pow2(24)}, b \in {0, 1}, c \in {0, 16, 17, 19, 20}}
   \cup {Sh("ct_slice", v, a, b, 0, 0) : v \in {"u8", "u64"}, a \in {0, 1, 16}, b \in {0, 1, 2, 16, 17}}
+  \cup {Sh("mac_cmp", v, a, b, 0, 0) : v \in {"eq", "ne"}, a \in {0, 1, 16, 32}, b \in {0, 1, 2, 16, 17, 32, 64}}
   \cup {Sh("x25519_try_from", v, a, 0, 0, 0) : v \in {"secret", "public", "shared"}, a \in {0, 31, 32, 33, 64}}
 
 VARIABLES s, done
@@ -84,6 +86,8 @@ Next == ~done /\ done' = TRUE /\ UNCHANGED s
 Emit == done => PrintT(ToJson(<<"GEN", [shape |-> s, legal |-> Legal(s)]>>))
 \* sanity of the domain itself: every entry point has at least one legal and one refused shape (vacuity guard)
 Entries == {x.entry : x \in Shapes}
-BothClasses == \A e \in Entries : (\E x \in Shapes : x.entry = e /\ Legal(x)) /\ (\E x \in Shapes : x.entry = e /\ ~Legal(x))
+AlwaysLegal == {"mac_cmp"}
+BothClasses == /\ \A e \in Entries \ AlwaysLegal : (\E x \in Shapes : x.entry = e /\ Legal(x)) /\ (\E x \in Shapes : x.entry = e /\ ~Legal(x))
+               /\ \A x \in Shapes : x.entry \in AlwaysLegal => Legal(x)
 ASSUME BothClasses
 =============================================================================
